@@ -611,3 +611,95 @@ func VDoIntersections(edges []VIxEdge, botY, topY int64) (curX []int64, nodes []
 	}
 	return
 }
+
+// VRingRec is one output record after VRingOps: front / back edge and owner as indices (-1 = nil) and the
+// ring read from pts along next.
+type VRingRec struct {
+	Front, Back, Owner int
+	Pts                Path64
+}
+
+// VRingOps runs the real ring-assembly functions on n synthetic closed, unjoined active edges (linked in
+// AEL order) and an empty record table. ops: {0,e1,e2,x,y,isNew} addLocalMinPoly, {1,e,x,y} addOutPt,
+// {2,e1,e2,x,y} addLocalMaxPoly, {3,e1,e2} swapOutrecs. It returns every edge's record index (-1 = cold),
+// the record table, the succeeded flag, the index of the operation that panicked and the index of the
+// operation after which some owner chain no longer ends (-1 = none; the run stops there, because setOwner
+// would loop forever on such a chain).
+func VRingOps(n int, usingTree bool, ops [][]int64) (edgeRec []int, recs []VRingRec, succeeded bool, faultAt, cycleAt int) {
+	c := newClipperBase()
+	c.usingPolyTree = usingTree
+	c.succeeded = true
+	edges := make([]*Active, n)
+	idx := map[*Active]int{}
+	for i := range edges {
+		a := &Active{windDx: 1, localMin: &LocalMinima{Vertex: &Vertex{}, PolyType: Subject}}
+		if i > 0 {
+			a.prevInAEL = edges[i-1]
+			edges[i-1].nextInAEL = a
+		}
+		edges[i] = a
+		idx[a] = i
+	}
+	faultAt, cycleAt = -1, -1
+	for k, op := range ops {
+		func() {
+			defer func() {
+				if recover() != nil {
+					faultAt = k
+				}
+			}()
+			switch op[0] {
+			case 0:
+				c.addLocalMinPoly(edges[op[1]], edges[op[2]], Point64{X: op[3], Y: op[4]}, op[5] != 0)
+			case 1:
+				addOutPt(edges[op[1]], Point64{X: op[2], Y: op[3]})
+			case 2:
+				c.addLocalMaxPoly(edges[op[1]], edges[op[2]], Point64{X: op[3], Y: op[4]})
+			case 3:
+				swapOutrecs(edges[op[1]], edges[op[2]])
+			}
+		}()
+		if faultAt >= 0 {
+			return nil, nil, c.succeeded, faultAt, -1
+		}
+		for _, o := range c.outrecList {
+			steps := 0
+			for t := o; t != nil; t = t.owner {
+				if steps++; steps > len(c.outrecList)+1 {
+					return nil, nil, c.succeeded, -1, k
+				}
+			}
+		}
+	}
+	ei := func(a *Active) int {
+		if a == nil {
+			return -1
+		}
+		return idx[a]
+	}
+	for _, a := range edges {
+		if a.outrec == nil {
+			edgeRec = append(edgeRec, -1)
+		} else {
+			edgeRec = append(edgeRec, a.outrec.idx)
+		}
+	}
+	for _, o := range c.outrecList {
+		r := VRingRec{Front: ei(o.frontEdge), Back: ei(o.backEdge), Owner: -1}
+		if o.owner != nil {
+			r.Owner = o.owner.idx
+		}
+		if o.pts != nil {
+			op := o.pts
+			for i := 0; i < 100000; i++ {
+				r.Pts = append(r.Pts, op.pt)
+				op = op.next
+				if op == o.pts {
+					break
+				}
+			}
+		}
+		recs = append(recs, r)
+	}
+	return edgeRec, recs, c.succeeded, -1, -1
+}
